@@ -70,8 +70,10 @@ func (r *Reqs) Previous(ctx context.Context, p module.Version) (module.Version, 
 		return module.Version{}, err
 	}
 
+	// "none" is the version the MVS algorithms expect when there is no previous version. Note that the
+	// empty version must not be used here: it is the root's version and compares greater than all others.
 	major := semver.Major(p.Version)
-	selected := ""
+	selected := "none"
 	for _, v := range versions {
 		if semver.Major(v.Version) == major && semver.Compare(v.Version, p.Version) < 0 && semver.Compare(v.Version, selected) > 0 {
 			selected = v.Version
